@@ -8,6 +8,7 @@ import (
 	"github.com/goatcms/goatcore/filesystem"
 	"github.com/goatcms/goatcore/varutil"
 	"github.com/goatcms/goatcore/varutil/goaterr"
+	"github.com/goatcms/goatcore/verifhook"
 )
 
 const (
@@ -194,6 +195,7 @@ func (fs *Filespace) Writer(destPath string) (writer filesystem.Writer, err erro
 	}
 	dir.Lock()
 	if node, err = dir.getNode(destNodeName); err != nil {
+		verifhook.Yield("memfs.write.gap")
 		file = NewFile(destNodeName, filesystem.DefaultUnixFileMode, time.Now(), []byte{})
 		if err = dir.addNode(file); err != nil {
 			dir.Unlock()
@@ -206,6 +208,7 @@ func (fs *Filespace) Writer(destPath string) (writer filesystem.Writer, err erro
 		}
 	}
 	dir.Unlock()
+	verifhook.Yield("memfs.writer.open")
 	handler := NewFileHandler(file)
 	file.time = time.Now()
 	file.data = []byte{}
@@ -257,6 +260,7 @@ func (fs *Filespace) WriteFile(destPath string, data []byte, filemode os.FileMod
 	}
 	dir.Lock()
 	if node, err = dir.getNode(destNodeName); err != nil {
+		verifhook.Yield("memfs.write.gap")
 		var datacopy = make([]byte, len(data))
 		copy(datacopy, data)
 		file = NewFile(destNodeName, filesystem.DefaultUnixFileMode, time.Now(), datacopy)
@@ -268,6 +272,7 @@ func (fs *Filespace) WriteFile(destPath string, data []byte, filemode os.FileMod
 	if file, ok = node.(*File); !ok {
 		return goaterr.Errorf("Node %s must be a file", destPath)
 	}
+	verifhook.Yield("memfs.write.setdata")
 	file.setData(data)
 	return nil
 }
